@@ -359,6 +359,9 @@ def c04j(ctx):
         raise Undecided('_transform_simple: crop call not found')
     for k, x in enumerate(crops):
         box = x.args[0]
+        if isinstance(box, ast.Name):               # the box held in a local first
+            ds = [v for v, sel in Defs(fn.node).of(box.id) if sel is None]
+            box = ds[0] if len(ds) == 1 else box
         elts = box.elts if isinstance(box, ast.Tuple) else []
         ok = len(elts) == 4
         offs = []
